@@ -582,6 +582,40 @@ func init() {
 			}
 			return mkIntVal(types.Uint, z.mp)
 		},
+		"(*math/big.Float).MantExp": func(fr *frame, args []value) value {
+			// exponent e with 0.5 <= |x|/2^e < 1 (0 for zero and infinities); only MantExp(nil) is modelled on symbolic
+			// values: the exponent is found by forking over the feasible binades, highest first
+			i := fr.i
+			z := i.getF(args[0])
+			mantNil := false
+			if p, ok := args[1].(*value); ok && p == nil {
+				mantNil = true
+			}
+			if z.nat != nil {
+				if mantNil {
+					return z.nat.MantExp(nil)
+				}
+				m := i.getF(args[1])
+				if m.nat == nil {
+					i.abort("unsupported", "MantExp into a symbolic number")
+				}
+				mant := new(big.Float).Copy(m.nat)
+				e := z.nat.MantExp(mant)
+				setCell(args[1], natF(mant))
+				return e
+			}
+			if !mantNil || z.num == nil {
+				i.abort("unsupported", "MantExp of a symbolic number with a mantissa target or without fixed-point form")
+			}
+			an := mkAbs(z.num)
+			for b := z.bits; b >= 1; b-- {
+				// |num| >= 2^(b-1)  <=>  the numerator has (at least) b bits: exponent b - scale
+				if i.branch(mkGe(an, mkInt(pow2(b-1)))) {
+					return b - z.scale
+				}
+			}
+			return 0
+		},
 		"(*math/big.Float).Mode": func(fr *frame, args []value) value {
 			z := fr.i.getF(args[0])
 			if z.nat != nil {
